@@ -1469,6 +1469,24 @@ coap_oscore_decrypt_pdu(coap_session_t *session,
 #endif /* COAP_CLIENT_SUPPORT */
 
 #if COAP_SERVER_SUPPORT
+  /*
+   * Without Appendix B.1.2 the first request that authenticates
+   * starts the Replay Window (RFC8613 7.4).
+   */
+  if (coap_request && !osc_ctx->rfc8613_b_1_2 &&
+      rcp_ctx->initial_state == 1) {
+    if (!oscore_validate_sender_seq(rcp_ctx, cose)) {
+      coap_log_warn("OSCORE: Replayed or old message\n");
+      build_and_send_error_pdu(session,
+                               pdu,
+                               COAP_RESPONSE_CODE(401),
+                               "Replay detected",
+                               NULL,
+                               NULL,
+                               0);
+      goto error_no_ack;
+    }
+  }
   /* Appendix B.1.2 request Trap */
   if (coap_request && osc_ctx->rfc8613_b_1_2) {
     if (rcp_ctx->initial_state == 1) {
